@@ -53,6 +53,19 @@ def tuple_element_modules():
     return out
 
 
+def literal_mixed_modules():
+    """fixed literal sets: values that are == but of different types (bool / int / float / str mixes), in both orders (shared with C01)"""
+    out = []
+    for i, vals in enumerate(([False, 0], [0, False], [True, 1], [1, True, "a"], [0], [True], [1, "one"], ["a", 2, None])):
+        methods = [dict(kind="ann", ann=lit_ann(vals), bound=lit_bound(vals), prio=0,
+                        pred="any(type(x) is not float and type(x) is not complex and x == _v for _v in " + repr(tuple(vals)) + ")"),
+                   dict(kind="static", bound="int", prio=-1), dict(kind="static", bound="object", prio=-2)]
+        checks = [("int", "int", None), ("bool", "bool", None)]
+        out.append((f"litmixed_{i}", gen.one_position_module(methods, [0, 1, 2, True, False, "a", "one", 0.0, 1.0, 2.0, 1 + 0j, None], checks),
+                    dict(family="Literal with equal values of different types", methods=methods)))
+    return out
+
+
 def single_value_literal_module():
     """a single literal value that is not an int / str / float: equal values built at run time are distinct objects (shared with C10)"""
     pre = "from ovld.dependent import StartsWith, EndsWith, Regexp, HasKey, Equals\nfrom fractions import Fraction"
@@ -107,14 +120,7 @@ def gen_harnesses(tier, seed):
     for i, (a_, b_, prio) in enumerate(((1, 2, (0, 0, 0)), (0, 0, (0, 0, 0)), (3, 1, (1, 0, 0)), (2, 2, (0, 0, 1)))):
         out.append((f"c11_lit_two_positions_{i}", gen.two_position_module(f"x == {a_}", f"x == {b_}", prio, anns=(f"Literal[{a_}]", f"Literal[{b_}]")),
                     dict(family="Literal types at different positions", values=[a_, b_], prio=list(prio))))
-    # fixed literal sets: values that are == but of different types (bool / int / float), in both orders
-    for i, vals in enumerate(([False, 0], [0, False], [True, 1], [1, True, "a"], [0], [True])):
-        methods = [dict(kind="ann", ann=lit_ann(vals), bound=lit_bound(vals), prio=0,
-                        pred="any(type(x) is not float and x == _v for _v in " + repr(tuple(vals)) + ")"),
-                   dict(kind="static", bound="int", prio=-1), dict(kind="static", bound="object", prio=-2)]
-        checks = [("int", "int", None), ("bool", "bool", None)]
-        out.append((f"c11_litmixed_{i}", gen.one_position_module(methods, [0, 1, 2, True, False, "a", 0.0, 1.0], checks),
-                    dict(family="Literal with equal values of different types", methods=methods)))
+    out.extend((f"c11_{n_}", src_, meta_) for n_, src_, meta_ in literal_mixed_modules())
 
     # ---- built-in value types
     def vm(name, anns, sig, build, pre, **kw):
